@@ -7,6 +7,7 @@ CONSTANT Mode        \* "exhaustive" | "random"
 VARIABLE ast
 
 A(k) == [k |-> k, n |-> 0, lo |-> 0, hi |-> 0, s |-> <<>>, p |-> 0, h |-> 0, bits |-> 32, name |-> "", tok |-> ""]
+Lin(f, op, c, ms) == [A("lin") EXCEPT !.name = f, !.tok = op, !.n = c, !.s = ms]
 IP(a, b, c, d) == ((a * 256 + b) * 256 + c) * 256 + d
 
 \* one or more representatives per filter kind; several id atoms so that contradictions / overlaps are generated
@@ -20,7 +21,10 @@ PlainAtoms == {
     [A("shost") EXCEPT !.h = IP(10, 0, 9, 9)],
     [A("tag") EXCEPT !.name = "tag/x"], [A("tag") EXCEPT !.name = "service/y"],
     [A("ftime") EXCEPT !.lo = 1, !.hi = 2], [A("ltime") EXCEPT !.lo = 4, !.hi = -1],
-    [A("ltime") EXCEPT !.lo = 6, !.hi = -1], [A("ltime") EXCEPT !.lo = 0, !.hi = 1], [A("ftime") EXCEPT !.lo = 3, !.hi = -1] }
+    [A("ltime") EXCEPT !.lo = 6, !.hi = -1], [A("ltime") EXCEPT !.lo = 0, !.hi = 1], [A("ftime") EXCEPT !.lo = 3, !.hi = -1],
+    \* arithmetic on the stream's own fields (odd constants: the normaliser divides by the common factor of the variables)
+    Lin("id", "ge", 7, <<-1>>), Lin("id", "le", 9, <<-1>>), Lin("id", "ge", 10, <<-2>>), Lin("sport", "ge", 161, <<0, 0, -1>>),
+    Lin("cport", "eq", 920, <<0, 0, 1>>), Lin("id", "ge", 1030, <<0, -1>>), Lin("sbytes", "ge", 1, <<0, 0, 0, 1>>), Lin("id", "le", 2137, <<-1, -1, -1>>) }
 DataAtoms == {
     [A("cdata") EXCEPT !.tok = "AA"], [A("sdata") EXCEPT !.tok = "BB"], [A("cdata") EXCEPT !.tok = "CC"],
     [A("data") EXCEPT !.tok = "BB"] }
